@@ -353,6 +353,64 @@ error: {:?}", out.replay(), e)),
 		self.rep.exhaustive.push(format!("each of {} single optional-field settings alone, on the empty and on the default parameter set, self-signed and issuer-signed", n));
 	}
 
+	/// every ASCII character and a few beyond, offered to each of the five restricted string
+	/// kinds: whatever rcgen's constructor admits goes into a certificate, whose DER is then
+	/// judged by the canonicity checker (alphabet of the tag it is written under)
+	pub fn string_kind_sweep(&mut self) {
+		let mut scalars: Vec<u32> = (0u32..=0x7f).collect();
+		scalars.extend([0x80, 0xa0, 0xe9, 0xff, 0x100, 0x20ac, 0xd7ff, 0xe000, 0xfffd, 0xfffe, 0xffff, 0x10000, 0x10041, 0x1f600, 0x10ffff]);
+		let mut offered = 0usize;
+		let mut admitted = 0usize;
+		for &c in &scalars {
+			let Some(ch) = char::from_u32(c) else { continue };
+			let text: String = ['a', ch, 'b'].iter().collect();
+			let utf16: Vec<u8> = text.encode_utf16().flat_map(|u| u.to_be_bytes()).collect();
+			let utf32: Vec<u8> = text.chars().flat_map(|x| (x as u32).to_be_bytes()).collect();
+			for v in [DnV::Printable(text.clone()), DnV::Ia5(text.clone()), DnV::Teletex(text.clone()), DnV::Bmp(utf16.clone()), DnV::Universal(utf32.clone())] {
+				offered += 1;
+				if v.real().is_none() {
+					continue;
+				}
+				admitted += 1;
+				let mut p = PCert::empty();
+				if cfg!(feature = "nocrypto") {
+					p.serial = Some(vec![5]);
+					p.kid = Kid::Pre(vec![1; 20]);
+				}
+				p.dn = Dn(vec![(DnT::Cn, v)]);
+				self.cert(&p, None, "ed25519", false);
+			}
+		}
+		// byte-level constructors: code units outside the types' repertoires
+		for b in [vec![0xd8, 0x00], vec![0xdc, 0x00, 0x00, 0x41], vec![0xff, 0xff], vec![0x00]] {
+			offered += 1;
+			let v = DnV::Bmp(b);
+			if v.real().is_some() {
+				admitted += 1;
+				let mut p = PCert::empty();
+				p.serial = Some(vec![5]);
+				p.kid = Kid::Pre(vec![1; 20]);
+				p.dn = Dn(vec![(DnT::Cn, v)]);
+				self.cert(&p, None, "ed25519", false);
+			}
+		}
+		for b in [vec![0, 0, 0xd8, 0], vec![0, 0, 0xdf, 0xff], vec![0, 0x11, 0, 0], vec![0, 0, 0]] {
+			offered += 1;
+			let v = DnV::Universal(b);
+			if v.real().is_some() {
+				admitted += 1;
+				let mut p = PCert::empty();
+				p.serial = Some(vec![5]);
+				p.kid = Kid::Pre(vec![1; 20]);
+				p.dn = Dn(vec![(DnT::Cn, v)]);
+				self.cert(&p, None, "ed25519", false);
+			}
+		}
+		self.rep.add("string_kind_offered", offered as u64);
+		self.rep.add("string_kind_admitted", admitted as u64);
+		self.rep.exhaustive.push("every ASCII character plus 15 boundary scalars x 5 restricted string kinds: each admitted value written into a certificate and judged by the canonicity checker".into());
+	}
+
 	pub fn pair_sweep(&mut self) {
 		let variants = field_variants();
 		let step = if self.ctx.thorough { 1 } else { 5 };
@@ -555,6 +613,30 @@ error: {:?}", out.replay(), e)),
 				}
 			}
 		}
+		// the two ends of the encodable range, to the second (never strided): the last and first
+		// encodable instants, their neighbours, and the same wall-clock readings pushed out of
+		// range by an offset
+		let tmax = time::Date::from_calendar_date(9999, time::Month::December, 31).unwrap().with_hms(23, 59, 59).unwrap().assume_utc();
+		let tmin = time::Date::from_calendar_date(0, time::Month::January, 1).unwrap().midnight().assume_utc();
+		for (base, deltas) in [(tmax, [0i64, -1, -2, -59, -3600]), (tmin, [0i64, 1, 2, 59, 3600])] {
+			for delta in deltas {
+				let Some(inst) = base.checked_add(time::Duration::seconds(delta)) else { continue };
+				for off in [0i32, 1, -1, 60, -60, 3600, -3600, 10800, -10800, 93599, -93599] {
+					let Ok(o) = time::UtcOffset::from_whole_seconds(off) else { continue };
+					for ns in [0u32, 5, 999_999_999] {
+						// the instant itself, read in the offset (when representable)
+						if let Some(local) = inst.checked_to_offset(o) {
+							let dt = Dt { y: local.year(), mo: local.month() as u8, d: local.day(), h: local.hour(), mi: local.minute(), s: local.second(), ns, off };
+							self.time_case(&dt);
+						}
+						// the same wall-clock reading labelled with the offset (may leave the range)
+						let dt = Dt { y: inst.year(), mo: inst.month() as u8, d: inst.day(), h: inst.hour(), mi: inst.minute(), s: inst.second(), ns, off };
+						self.time_case(&dt);
+					}
+				}
+			}
+		}
+		self.rep.exhaustive.push("both ends of the encodable range to the second: 0000-01-01T00:00:00Z and 9999-12-31T23:59:59Z, +-1s, +-2s, +-59s, +-1h, x 11 offsets x 3 nanosecond values, as instants and as wall-clock readings".into());
 		if stride == 1 {
 			self.rep.exhaustive.push("offsets -25h..+25h and odd offsets x instants at 0, +-1s, +-30min, +-1h, +-26h around 1950/2050/leap days/year 1/year 9998 x nanoseconds {0,1,999999999}".into());
 		}
@@ -1035,6 +1117,7 @@ pub fn run(ctx: &mut Ctx, prop: &str) -> Report {
 			s.serial_sweep();
 			s.csr_attr_sweep();
 			s.crl_enum_sweep();
+			s.string_kind_sweep();
 			s.random_certs(n(300, 15000));
 			s.random_csrs(n(200, 8000));
 			s.random_crls(n(200, 8000));
